@@ -10,6 +10,7 @@
   "aclose() marks closing before its first suspension" — `Tgt.inner i` is that mark.
 -/
 import EasyNet.Lemmas.ClosePaths
+import EasyNet.Lemmas.Listener
 namespace EasyNet
 open EasyNet.C14
 
@@ -116,5 +117,48 @@ theorem C14_tcpclient_fixed_closes (busy : Bool) (s : Nat) (e : Bool) (ds : List
   cases busy <;> simp [CAll, tcpClientProg, endpointProg, innerClose, CN, CRc, CRe]
 
 example : (run (tcpClientProg true true 0 false) [.cancel]).st.has (.inner 0) = true := by decide +kernel
+
+/-- **C14, the TCP listener of the asyncio backend** (`ListenerSocketAdapter.aclose()`; `AsyncStreamServer.aclose()` and
+    `AsyncTLSListener.aclose()` delegate to it).  For EVERY history of accept calls, accept results (a connection, capacity
+    errors with their back-off, ignorable errors, other errors), external cancellations of the accepting task, close calls and
+    cancellations of a close at its only await:
+    * once a close has started and its task is over — it returned, or it was cancelled at its await — the listening socket is
+      closed (and while the close is still parked at its await the listener already reports `is_closing()`);
+    * cancelling the parked close is a step that is always possible and it closes the socket (`aclose_forcefully`);
+    * a second close returns at once without touching anything;
+    * an accept in progress when the close starts cannot hang: the step that ends it with EBADF is enabled. -/
+theorem C14_listener_close_releases (es : List Lsn.Ev) :
+    ((Lsn.run Lsn.St.init es).sockRef = false → (Lsn.run Lsn.St.init es).cpc = .idle → (Lsn.run Lsn.St.init es).osOpen = false) ∧
+    ((Lsn.run Lsn.St.init es).cpc = .yielded →
+      (Lsn.run Lsn.St.init es).sockRef = false ∧
+      Lsn.step (Lsn.run Lsn.St.init es) .closeCancel =
+        some ({ (Lsn.run Lsn.St.init es) with osOpen := false, cpc := .idle }, some .closeCancelled) ∧
+      Lsn.step (Lsn.run Lsn.St.init es) .closeResume =
+        some ({ (Lsn.run Lsn.St.init es) with osOpen := false, cpc := .idle }, some .closeReturned)) ∧
+    ((Lsn.run Lsn.St.init es).sockRef = false →
+      Lsn.step (Lsn.run Lsn.St.init es) .closeCall = some (Lsn.run Lsn.St.init es, some .closeReturned)) ∧
+    ((Lsn.run Lsn.St.init es).scopeCancelled = true →
+      Lsn.step (Lsn.run Lsn.St.init es) .scopeDelivered = some ((Lsn.run Lsn.St.init es).leave, some .ebadf)) := by
+  have h := Lsn.Inv.init.run es rfl
+  generalize Lsn.run Lsn.St.init es = s at h
+  obtain ⟨h1, h2, h3, h4, h5⟩ := h
+  refine ⟨?_, ?_, ?_, ?_⟩
+  · intro hr hc
+    cases h4 hr with
+    | inl hy => rw [hc] at hy; cases hy
+    | inr ho => exact ho
+  · intro hy
+    exact ⟨h3 hy, by simp [Lsn.step, hy], by simp [Lsn.step, hy]⟩
+  · intro hr; simp [Lsn.step, hr]
+  · intro hc
+    have hm := (h2 hc).1
+    have : s.apc ≠ .idle := h1.mp hm
+    simp [Lsn.step, hc, this]
+
+/-- non-vacuity: serving, close requested while the accept is parked, the close cancelled at its yield: socket closed, the
+    accept ends with EBADF, a second close returns at once -/
+example : Lsn.trace Lsn.St.init [.acceptCall, .closeCall, .closeCancel, .scopeDelivered, .closeCall] =
+    [none, none, some .closeCancelled, some .ebadf, some .closeReturned] ∧
+    (Lsn.run Lsn.St.init [.acceptCall, .closeCall, .closeCancel]).osOpen = false := by decide +kernel
 
 end EasyNet
